@@ -340,6 +340,7 @@ class Config:
         self.timed = False
         self.overrun = 1.0  # timed mode: executions last up to overrun x test_timeout (> 1: tests may hang past their timeout)
         self.elapsed_options: list[str] = []
+        self.tool_crash = False  # tools: the environment fails to start (RuntimeError inside the tool instead of a traversal)
         self.real_layer = False  # also ask the real states.setup/pool layer whether a test can fetch its states
         self.__dict__.update(kw)
 
@@ -782,6 +783,8 @@ def install_tools() -> None:
     def run_workers(self: Any, test_suite: Any, params: Any) -> None:
         run = CUR
         assert run is not None
+        if run.config.tool_crash:
+            raise RuntimeError("Failed to start environment (injected)")
         graph = test_suite
         graph.runner = self
         run.graph, run.runner = graph, self
@@ -814,11 +817,18 @@ def run_tool(eng: symx.Engine, scenario: ToolScenario, config: Config) -> Run:
     cfg["tests_str"] = {}
     cfg["tests_params"] = Params()
     cfg["vms_params"] = Params(dict(scenario.vms_params))
+    run.param_dict_before = dict(cfg["param_dict"])
     try:
         run.tool_result = getattr(intertest_setup, scenario.tool)(cfg, tag=scenario.tag)
     except (ValueError, params_parser.EmptyCartesianProduct) as e:
         # the tool refused the request before running anything
         run.tool_error = e
+    except RuntimeError as e:
+        if not config.tool_crash:
+            raise
+        run.tool_crashed = e
+    # the dictionary the whole setup chain shares, as the next step would see it
+    run.param_dict_after = dict(cfg["param_dict"])
     return run
 
 
